@@ -297,3 +297,63 @@ func TestReplayTenant(t *testing.T) {
 	res.AddExtra("tenant_outcomes", accepted)
 	writeResult(t, res, "tenant_replay")
 }
+
+// TestReplayMetaMisuse: the Set transitions of MetadataMisuse.tla (validated and unvalidated
+// arguments) on the real Metadata.With: the result is the specification's, and ParseMetadata judges
+// it well-formed exactly when the specification does (observation: the unvalidated mutator can
+// break the invariant documented on the type).
+func TestReplayMetaMisuse(t *testing.T) {
+	in := envFor("VERIF_IN", "MISUSE")
+	if in == "" {
+		t.Skip("VERIF_IN_MISUSE not set")
+	}
+	type tr struct {
+		M          []int  `json:"m"`
+		Key        []int  `json:"key"`
+		Val        []int  `json:"val"`
+		Out        []int  `json:"out"`
+		WellFormed bool   `json:"wellformed"`
+		Err        string `json:"err"`
+	}
+	res := &abs.Result{}
+	brokenN := 0
+	err := abs.ReadNDJSON(in, func(line []byte) error {
+		var c tr
+		if err := json.Unmarshal(line, &c); err != nil {
+			return err
+		}
+		res.Cases++
+		p := guard(func() {
+			m, err := tenant.ParseMetadata(b2s(c.M))
+			if err != nil {
+				res.Mismatch(abs.Mismatch{Sig: "metamisuse:source state not well-formed", Case: c, Got: err.Error(), Want: "ok"})
+				return
+			}
+			out := m.With(b2s(c.Key), b2s(c.Val)).Encode()
+			if out != b2s(c.Out) {
+				res.Mismatch(abs.Mismatch{Sig: "metamisuse:With result differs", Case: c, Got: s2b(out), Want: c.Out})
+			}
+			_, perr := tenant.ParseMetadata(out)
+			cls, _ := classify(perr)
+			if (perr == nil) != c.WellFormed || cls != c.Err {
+				res.Mismatch(abs.Mismatch{Sig: fmt.Sprintf("metamisuse:ParseMetadata(With(..)) want=%s got=%s", c.Err, cls), Case: c, Got: cls, Want: c.Err})
+			}
+		})
+		if p != "" {
+			res.Mismatch(abs.Mismatch{Sig: "metamisuse:panic", Case: c, Got: p, Want: "no panic"})
+		}
+		if !c.WellFormed {
+			brokenN++
+			res.Nontrivial++
+		}
+		if res.Cases%499 == 1 {
+			res.Sample(c)
+		}
+		return nil
+	})
+	if err != nil {
+		res.Fatal = err.Error()
+	}
+	res.AddExtra("metadata_set_results_breaking_the_documented_invariant", brokenN)
+	writeResult(t, res, "metamisuse_replay")
+}
